@@ -16,6 +16,8 @@ Driver for C19. Ops (kept in step with go/internal/c19):
 * `m <msg>` … `rung <n>` — the same under a controlled schedule of the harness.
 * `m <msg>` … `runstall <ms>.<k>` — the same, the stream's writer blocked for `ms` milliseconds inside its k-th `Write`
   (in the model a pending send stays pending for as long as `Write` takes: nothing is lost).
+* `runpx <spec> ids=<class,…>` — exchanges through a real proxy with marbl.Modifier installed; `ids` = the equality
+  classes of the context IDs the proxy allocated, as far as a frame keeps them (8 bytes). See `pxOp`.
 * every run op may carry what the run decided: `ord=<i,i,…>` (the message each `Write` of the writer goroutine belonged
   to, in order) and `ts=<hex,…>` (each message's `:timestamp` value), `ho=<names>/…` (the iteration order of each message's header map). With `ord` the model's goroutine system
   (`Marbl.Sys`) replays that schedule — each sender's channel sends in program order, `take i; write` per entry, then
@@ -221,6 +223,49 @@ def logOp (toks : List String) (obs : Obs := {}) (viaHandler : Bool := false) : 
       [s!"end={showStop r.2}", s!"frames={r.1.length}"] ++
       (if obs.ord.isSome then [s!"writes={frames.length}", s!"stream={stream.length}:{hex64 (fnv stream)}"] else []))
 
+/-! ### `runpx`: exchanges through a real proxy, logged under the IDs its contexts got -/
+
+def patBytes (len start : Nat) : Bytes := (List.range len).map fun i => UInt8.ofNat ((start + i) % 251)
+
+/-- `conn;conn;…`, conn = `req.res,req.res,…` → (connection, exchange, request body length, response body length) -/
+def parsePx (spec : String) : Option (List (Nat × Nat × Nat × Nat)) := do
+  let conns := spec.splitOn ";"
+  let per ← ((List.range conns.length).zip conns).mapM fun (c, cs) =>
+    let es := cs.splitOn ","
+    ((List.range es.length).zip es).mapM fun (x, e) =>
+      match e.splitOn "." with
+      | [a, b] => do let a ← a.toNat?; let b ← b.toNat?; pure (c, x, a, b)
+      | _ => none
+  pure per.flatten
+
+def digits8 (n : Nat) : Bytes := strBytes ((toString (10000000 + n % 10000000)))
+
+/-- The messages of the run with the observed equality classes of the IDs (in the 8 bytes a frame keeps), written
+connection by connection, exchange by exchange (request, then response: the order one connection's exchanges have
+on the stream); decoded per (id, type). Per exchange and side: number of messages whose marker header is in the
+group, number of index-0 frames, number of terminal frames, length and hash of the concatenated payloads. -/
+def pxOp (spec : String) (ids : List String) : String :=
+  match parsePx spec with
+  | none => "bad-op"
+  | some exs =>
+    match ids.mapM String.toNat? with
+    | none => "out-of-model"        -- a message without frames: the oracle has spoken
+    | some cls =>
+      if cls.length ≠ exs.length then "bad-op" else
+      let msgs := (exs.zip cls).map fun ((c, x, a, b), k) =>
+        let marker := strBytes s!"/c{c}/x{x}"
+        let id := digits8 k
+        (id,
+         messageFrames 1 id [(strBytes ":path", marker)] [⟨patBytes a ((7 * c + 3 * x) % 251), .eof⟩],
+         messageFrames 2 id [(strBytes "X-Ex", marker)] [⟨patBytes b ((11 * c + 5 * x + 1) % 251), .eof⟩])
+      let r := readAll (encodeAll (msgs.flatMap fun m => m.2.1 ++ m.2.2))
+      let side (id : Bytes) (mt : UInt8) : String :=
+        let g := r.1.filter fun f => f.key == (id, mt)
+        let ds := g.filter Frame.isData
+        let cat := (ds.map Frame.payload).flatten
+        s!"{(g.filter fun f => !f.isData).length}.{(ds.filter fun f => f.index == 0).length}.{(ds.filter Frame.terminal).length}.{cat.length}.{hex64 (fnv cat)}"
+      " ".intercalate (((exs.zip msgs).map fun ((c, x, _, _), m) => s!"{c}.{x}={side m.1 1}|{side m.1 2}") ++ [s!"end={showStop r.2}"])
+
 def runOp (s : St) (extra : List String) (viaHandler : Bool := false) : String :=
   if s.isEmpty then "bad-op" else
   let (rest, obs) := splitObs extra
@@ -235,6 +280,7 @@ def step (s : St) (toks : List String) : St × String :=
   | "runmod" :: x => ([], runOp s x)   -- through marbl.Modifier: same frames, ids canonicalised by the harness
   | "runws" :: x => ([], runOp s x true)    -- into marbl.Handler (retains the slices) + websocket subscriber: same frames
   | "rung" :: _ :: x => ([], runOp s x)     -- controlled schedule: same frames
+  | ["runpx", spec, ids] => (s, if ids.startsWith "ids=" then pxOp spec ((ids.drop 4).toString.splitOn ",") else "bad-op")
   | "runstall" :: _ :: x => ([], runOp s x) -- the writer is stalled (wall clock) inside one Write: same frames, senders wait
   | _ => (s, "bad-op")
 
